@@ -46,11 +46,15 @@ theorem accepts_anyOf_some {ss : List Schema} {j : JVal} (h : accepts (.mk [.any
   simp only [List.all_cons, List.all_nil, Bool.and_true, validateKw] at h
   exact anyOf_some h
 
+example : accepts (.mk [.anyOf [NONEMPTY_STRING, POSITIVE_INTEGER, POSITIVE_NUMBER]]) (.flt (.fin 5 2)) = true := by decide
+
 theorem accepts_oneOf_some {ss : List Schema} {j : JVal} (h : accepts (.mk [.oneOf ss]) j = true) :
     ∃ s ∈ ss, accepts s j = true := by
   rw [accepts_mk] at h
   simp only [List.all_cons, List.all_nil, Bool.and_true, validateKw] at h
   exact oneOf_some h
+
+example : accepts (.mk [.oneOf [NONEMPTY_STRING, UNIQUE_STRING_LIST]]) (.arr [.str "a", .str "b"]) = true := by decide
 
 /-- (c) `oneOf` accepted: two branches at different positions never both accept the value. -/
 theorem accepts_oneOf_exclusive {pre mid post : List Schema} {a b : Schema} {j : JVal}
